@@ -31,13 +31,15 @@ def cost_hash(rec):
     return c
 
 
-def write_cfg(R, name, constants, invariants, nxt="Next"):
+def write_cfg(R, name, constants, invariants, nxt="Next", constraints=()):
     """instantiate an object machine with run-time constants; returns the cfg path"""
     p = os.path.join(R.work, name + ".cfg")
     with open(p, "w") as f:
         f.write("CONSTANTS " + "  ".join("%s = %s" % kv for kv in constants.items()) + "\nINIT Init\nNEXT %s\n" % nxt)
         for i in invariants:
             f.write("INVARIANT %s\n" % i)
+        for c in constraints:
+            f.write("CONSTRAINT %s\n" % c)
         f.write("CHECK_DEADLOCK FALSE\n")
     return p
 
